@@ -463,8 +463,9 @@ def _ref_observe_time(U, grid_sol, grid_obs, ts, tobs, ref_map):
         pre = np.array(U[:, -1])
         out = ref_map(pre)
     else:
-        Mx, _ = (np.eye(U.shape[0]), None) if grids_equal else _restrict_or_interp_matrix(grid_sol, grid_obs, 3)
-        Mt, _ = _restrict_or_interp_matrix(ts, tobs, 3)
+        # bicubic spline; on grids with fewer than 4 points the degree is reduced (documented in observe())
+        Mx, _ = (np.eye(U.shape[0]), None) if grids_equal else _restrict_or_interp_matrix(grid_sol, grid_obs, min(3, len(grid_sol) - 1))
+        Mt, _ = _restrict_or_interp_matrix(ts, tobs, min(3, len(ts) - 1))
         pre = Mx @ U @ Mt.T
         out = ref_map(pre)
     out = np.asarray(out)
